@@ -54,6 +54,7 @@ class Device:
         self.open_plan: list = []       # outcomes of the coming open() attempts: 'ok' | 'to' | 'early' | 'late'
         self.cur_open = "ok"            # outcome of the open() attempt under way (UDP: chosen at gethostbyname)
         self.written: list = []         # payloads handed to the device during the current op, one entry per call
+        self.last_answer = "idle"       # 'data' if the last receive handed out bytes, else 'idle' (time-out / EOF / empty / lost)
 
     def next_open(self) -> str:
         self.cur_open = self.open_plan.pop(0) if self.open_plan else "ok"
@@ -84,12 +85,14 @@ class Device:
             raise ScriptExhausted()
         e, k, bs = self.script[0]
         self.ticks += e
+        self.last_answer = "idle"
         if k != "d":
             self.script.pop(0)
             return (k,)
         if len(bs) <= size:
             self.script.pop(0)
             self.given += bs
+            self.last_answer = "data" if bs else "idle"
             return ("d", bytes(bs))
         if datagram:
             self.script.pop(0)
@@ -98,6 +101,7 @@ class Device:
             return ("oserr",)
         self.script[0] = [0, "d", bs[size:]]
         self.given += bs[:size]
+        self.last_answer = "data" if size else "idle"
         return ("d", bytes(bs[:size]))
 
 
@@ -268,6 +272,32 @@ class _Patched:
         self.T.socket, self.T.serial, self.T.time = self.saved
 
 
+class _DebugLogging:
+    """The library's loggers at DEBUG (null handler, nothing printed), restored afterwards: optional debug output of
+    the code under test must not change what the transport does with the bytes."""
+
+    def __enter__(self):
+        import logging
+        self.lg = logging.getLogger("qmi")
+        self.old = (self.lg.level, self.lg.propagate)
+        self.h = logging.NullHandler()
+        self.lg.addHandler(self.h)
+        self.lg.setLevel(logging.DEBUG)
+        self.lg.propagate = False
+        self.sub = [(l, l.level) for n, l in logging.root.manager.loggerDict.items()
+                    if isinstance(l, logging.Logger) and n.startswith("qmi.")]
+        for l, _ in self.sub:
+            l.setLevel(logging.NOTSET)
+        return self
+
+    def __exit__(self, *a):
+        self.lg.removeHandler(self.h)
+        self.lg.setLevel(self.old[0])
+        self.lg.propagate = self.old[1]
+        for l, lv in self.sub:
+            l.setLevel(lv)
+
+
 def _consts(T, kind):
     if kind == "tcp":
         return int(T.QMI_TcpTransport.MIN_PACKET_SIZE), int(T.QMI_TcpTransport.MAX_PACKET_SIZE)
@@ -380,7 +410,9 @@ def _run_impl(P: _Patched, sc: dict):
                       "given": bytes(dev.given), "dropped": bytes(dev.dropped), "buf": buf,
                       "lost_dgrams": list(dev.lost_dgrams), "fit_limit": min(mn, mx),
                       "written": list(dev.written), "flag": getattr(tr, "_is_open", None),
-                      "clk0": clk0, "clk1": dev.ticks, "slice": slice0, "io": list(dev.io)})
+                      "clk0": clk0, "clk1": dev.ticks, "slice": slice0, "io": list(dev.io),
+                      "last_answer": dev.last_answer,
+                      "head_ready": bool(dev.script and dev.script[0][0] == 0 and dev.script[0][1] == "d" and dev.script[0][2])})
         if exc == "Budget":
             break
     return lines, outs, trace
@@ -478,6 +510,11 @@ def _oracle(kind: str, trace) -> Optional[tuple]:
                     pending.clear()      # the discard was under way when the finite script ended (harness artefact)
             elif op == "discard":
                 pending.clear()
+                # discard_read leaves nothing of what had arrived: it may stop only when the device says "nothing more"
+                # (time-out / EOF / empty), not after a receive that still handed out data while more is waiting
+                if is_open and ev.get("head_ready") and (kind == "serial" or ev.get("last_answer") == "data"):
+                    return ("discard-leaves-arrived-data-behind", i,
+                            "discard_read returned while the device still had data ready (the last receive was answered with data)")
             elif op == "write":
                 if is_open:
                     data = bytes.fromhex(ev["args"][0])
@@ -580,8 +617,29 @@ def _shrink(P: _Patched, sc: dict, clause_name: str) -> dict:
 TERMS = [b"\n", b"\r\n", b"ab", b"aab", b"aa", b"aba", b"\n\n", b"abab", b"b", b";\r\n"]
 
 
+_BINARY = [False]       # set while the debug-logging slice is generated: payloads from the full byte range
+_UTF8_BITS = ["é".encode(), "€".encode(), "😀".encode(), b"\x80", b"\xc3", b"\xe2\x82", b"\xff", b"\xf0\x9f", b"\xc0\xaf", b"\n", b"a"]
+
+
+def _gen_binary(rng, n: int) -> bytes:
+    """full-range bytes: random 0..255, valid multibyte UTF-8 characters (so that cuts split them), lone
+    continuation / lead bytes and other invalid UTF-8"""
+    out = bytearray()
+    while len(out) < n:
+        r = rng.random()
+        if r < 0.5:
+            out += rng.choice(_UTF8_BITS)
+        elif r < 0.9:
+            out.append(rng.randrange(256))
+        else:
+            out.append(rng.choice([0x00, 0x7f, 0x80, 0xbf, 0xc2, 0xfe, 0xff]))
+    return bytes(out[:n])
+
+
 def _gen_stream(rng, n: int) -> bytes:
     style = rng.random()
+    if _BINARY[0] or style < 0.08:
+        return _gen_binary(rng, n)
     if style < 0.5:
         alpha = b"ab\n\r"
     elif style < 0.8:
@@ -809,6 +867,33 @@ def _fixed_corpus():
     return out
 
 
+def _gen_discard_pending(rng, kind: str) -> dict:
+    """Several datagrams / segments already waiting when discard_read() is called (sizes below / at / above
+    MAX_PACKET_SIZE), then zero-time-out reads (must find nothing) and a fresh answer (must be the next thing read)."""
+    P = {"tcp": 512, "udp": 4096, "serial": 64}[kind]
+    sizes_small = [1, 2, 7, 30]
+    sizes_edge = [P - 1, P, P + 1, 2 * P + 3] if kind != "udp" else [P - 1, P]
+    count = rng.choice([2, 2, 3, 4, 6])
+    evs = []
+    for _ in range(count):
+        size = rng.choice(sizes_small * 3 + sizes_edge)
+        evs.append([0 if rng.random() < 0.8 else rng.choice([1, 2]), "d", _gen_stream(rng, size).hex()])
+    evs.append([rng.choice([0, 1, 3]), "t", ""])
+    steps = [["feed", evs], ["open"]]
+    if rng.random() < 0.5:
+        steps.append([rng.choice(["read", "rut"]), rng.choice([1, 2, 5]), rng.choice([0, 2, None])])   # something buffered too
+    steps.append(["discard"])
+    steps.append(["feed", [[1, "t", ""]]])
+    steps.append(["rut", rng.choice([1, 8, 5000]), 0])
+    steps.append(["read", 1, 0])
+    answer = _gen_stream(rng, rng.choice([3, 9])) + b"\n"
+    steps.append(["feed", [[rng.choice([0, 1]), "d", answer.hex()], [1, "t", ""], [1, "t", ""]]])
+    steps.append(["until", "0a", rng.choice([3, None])])
+    steps.append(["discard"])
+    steps.append(["rut", 8, 0])
+    return {"kind": kind, "steps": steps}
+
+
 def _sweep_scenarios(kinds=KINDS):
     """Systematic: one stream, every single cut point, with and without a time-out between the two halves,
     every terminator of a small set, a few op templates."""
@@ -901,7 +986,8 @@ class C13(Prop):
                         res.failures.append(Failure(
                             signature=sig2,
                             summary=f"{kind} {_short(small['steps'])}: {c2[0]} at step {c2[1]}: {c2[2]}",
-                            replay={"kind": "scenario", "scenario": small, "clause": c2[0]}))
+                            replay={"kind": "scenario", "scenario": small, "clause": c2[0],
+                                    "debuglog": label == "debuglog"}))
         model = drv.run(all_lines)
         res.traces_validated += len(spans)
         k = diff_streams(all_lines, all_outs, model)
@@ -921,6 +1007,9 @@ class C13(Prop):
                           "read/read_until/read_until_timeout/discard_read/open/close with time-outs None/0/positive/negative; "
                           "first a fixed corpus (related terminators x chunkings, byte counts around 512 / 4096, time-outs None/0/1/-1, every call "
                           "twice, unusual order, reuse across close/open, every open() failure + retry); "
+                          "plus discard_read with several datagrams / segments pending (sizes around MAX_PACKET_SIZE) followed by zero-time-out "
+                          "reads and a fresh answer; plus a slice of every family re-run with the qmi loggers at DEBUG and payloads from the "
+                          "full byte range (invalid UTF-8, split multibyte characters); "
                           "plus UDP packet-size boundary scenarios (non-empty buffer + datagram of 4096-nbuf..4096 bytes; reads of 4000+ bytes "
                           "over ~1400-byte datagrams; every datagram fits, so none may be lost); "
                           "plus a systematic sweep (every cut point x gap kind x terminator x 6 op templates x 3 kinds). "
@@ -933,6 +1022,19 @@ class C13(Prop):
             scen = [_gen_scenario(ctx.rng, KINDS[i % 3], ctx.scale(10, 16)) for i in range(n)]
             self._differential(ctx, P, scen, res, "random")
             self._differential(ctx, P, [_gen_udp_boundary(ctx.rng) for _ in range(ctx.scale(400, 6000))], res, "udp_boundary")
+            self._differential(ctx, P, [_gen_discard_pending(ctx.rng, KINDS[i % 3]) for i in range(ctx.scale(900, 12000))],
+                               res, "discard_pending")
+            # a slice of every scenario family with the library's loggers at DEBUG and full-range (non-UTF-8) payloads
+            _BINARY[0] = True
+            try:
+                with _DebugLogging():
+                    dbg = [_gen_scenario(ctx.rng, KINDS[i % 3], ctx.scale(10, 16)) for i in range(ctx.scale(4000, 60000))]
+                    dbg += [_gen_discard_pending(ctx.rng, KINDS[i % 3]) for i in range(ctx.scale(150, 1500))]
+                    dbg += [_gen_udp_boundary(ctx.rng) for _ in range(ctx.scale(30, 300))]
+                    dbg += _fixed_corpus()[::ctx.scale(7, 1)]
+                    self._differential(ctx, P, dbg, res, "debuglog")
+            finally:
+                _BINARY[0] = False
             sweep = list(_sweep_scenarios())
             if ctx.quick:
                 sweep = ctx.rng.sample(sweep, 2500)
@@ -947,25 +1049,47 @@ class C13(Prop):
         res = Result()
         with _Patched() as P:
             cands = [b.case["scenario"] for b in broken if b.case and "scenario" in b.case]
-            for sc in itertools.chain(cands, _fixed_corpus(), (_gen_udp_boundary(ctx.rng) for _ in range(300)), _sweep_scenarios(),
-                                      (_gen_scenario(ctx.rng, KINDS[i % 3], 12) for i in range(ctx.scale(6000, 60000)))):
-                clause, trace = _check(P, sc)
-                res.note_case((sc["kind"], repr(sc["steps"])))
-                if clause:
-                    sig = _signature(sc["kind"], trace, clause)
-                    if core.known_match(self.id, sig) or any(f.signature == sig for f in res.failures):
-                        continue
-                    small = _shrink(P, sc, clause[0])
-                    c2, t2 = _check(P, small)
-                    c2 = c2 or clause
-                    res.failures.append(Failure(_signature(sc["kind"], t2, c2) if t2 else sig,
-                                                f"{sc['kind']} {_short(small['steps'])}: {c2[0]} at step {c2[1]}: {c2[2]}",
-                                                {"kind": "scenario", "scenario": small, "clause": c2[0]}))
-                    if len(res.failures) >= 3:
-                        break
+            plain = itertools.chain(cands, (_gen_discard_pending(ctx.rng, KINDS[i % 3]) for i in range(300)), _fixed_corpus(),
+                                    (_gen_udp_boundary(ctx.rng) for _ in range(300)), _sweep_scenarios(),
+                                    (_gen_scenario(ctx.rng, KINDS[i % 3], 12) for i in range(ctx.scale(6000, 60000))))
+            self._search_pass(ctx, P, plain, res, debuglog=False)
+            if len(res.failures) < 3:
+                # the same under debug logging with full-range payloads (interplay with the optional debug output)
+                _BINARY[0] = True
+                try:
+                    with _DebugLogging():
+                        dbg = itertools.chain(cands, (_gen_scenario(ctx.rng, KINDS[i % 3], 12) for i in range(ctx.scale(2000, 20000))),
+                                              (_gen_discard_pending(ctx.rng, KINDS[i % 3]) for i in range(150)))
+                        self._search_pass(ctx, P, dbg, res, debuglog=True)
+                finally:
+                    _BINARY[0] = False
         return res
 
+    def _search_pass(self, ctx: Ctx, P, scenarios, res: Result, debuglog: bool) -> None:
+        for sc in scenarios:
+            clause, trace = _check(P, sc)
+            res.note_case((sc["kind"], repr(sc["steps"]), debuglog))
+            if clause:
+                sig = _signature(sc["kind"], trace, clause)
+                if core.known_match(self.id, sig) or any(f.signature == sig for f in res.failures):
+                    continue
+                small = _shrink(P, sc, clause[0])
+                c2, t2 = _check(P, small)
+                c2 = c2 or clause
+                res.failures.append(Failure(_signature(sc["kind"], t2, c2) if t2 else sig,
+                                            f"{sc['kind']} {_short(small['steps'])}: {c2[0]} at step {c2[1]}: {c2[2]}"
+                                            + (" [qmi loggers at DEBUG]" if debuglog else ""),
+                                            {"kind": "scenario", "scenario": small, "clause": c2[0], "debuglog": debuglog}))
+                if len(res.failures) >= 3:
+                    break
+
     def replay(self, ctx: Ctx, rp: dict):
+        if rp.get("debuglog"):
+            with _DebugLogging():
+                return self._replay(ctx, rp)
+        return self._replay(ctx, rp)
+
+    def _replay(self, ctx: Ctx, rp: dict):
         with _Patched() as P:
             sc = rp["scenario"]
             clause, trace = _check(P, sc)
